@@ -68,8 +68,29 @@ var histShapes = []hshape{
 	{Name: "self-rewritten-dependency", Tasks: []htask{{Name: "A", Lits: []string{"m.txt"}, NCmd: 1, Copies: [][2]string{{"x.txt", "m.txt"}}}, {Name: "B", Lits: []string{"m.txt"}, Deps: []string{"A"}, NCmd: 1}}, Files: []string{"m.txt", "x.txt"}},
 	{Name: "default-task", Tasks: []htask{{Name: "build", Lits: []string{"a.txt"}, NCmd: 1}, {Name: "default", Lits: []string{"b.txt"}, Deps: []string{"build"}, NCmd: 1}}, Files: []string{"a.txt", "b.txt"}},
 	{Name: "volatile-variable-in-command", Stamp: true, Tasks: []htask{{Name: "A", Lits: []string{"a.txt"}, NCmd: 1}, {Name: "B", Globs: []string{"*.txt"}, NCmd: 2}}, Files: []string{"a.txt"}},
+	{Name: "non-ascii-task-name", Tasks: []htask{{Name: "übersetzen", Lits: []string{"a.txt"}, NCmd: 1}, {Name: "B", Lits: []string{"a.txt"}, Deps: []string{"übersetzen"}, NCmd: 1}}, Files: []string{"a.txt"}},
 	{Name: "generated-input", Tasks: []htask{{Name: "A", Lits: []string{"a.txt"}, NCmd: 1, Copies: [][2]string{{"a.txt", "g.txt"}}}, {Name: "B", Lits: []string{"g.txt"}, Deps: []string{"A"}, NCmd: 1}}, Files: []string{"a.txt", "g.txt"}},
 	{Name: "chain-of-three", Tasks: []htask{{Name: "A", Lits: []string{"a.txt"}, NCmd: 1}, {Name: "B", Lits: []string{"b.txt"}, Deps: []string{"A"}, NCmd: 1}, {Name: "C", Deps: []string{"B"}, NCmd: 1}}, Files: []string{"a.txt", "b.txt"}},
+}
+
+// tagOf is the ASCII alias of a task name used in command text (log lines, flag files): command
+// text must be ASCII, task names need not be.
+func tagOf(name string) string {
+	for _, r := range name {
+		if r > 127 {
+			return fmt.Sprintf("T%x", name)
+		}
+	}
+	return name
+}
+
+// flagOf turns "Task.i" into the flag-file suffix.
+func flagOf(spec string) string {
+	i := strings.LastIndex(spec, ".")
+	if i < 0 {
+		return tagOf(spec)
+	}
+	return tagOf(spec[:i]) + spec[i:]
 }
 
 // sandbox is one project directory with the side-effect log and flag directory next to it.
@@ -124,7 +145,7 @@ func (sb *sandbox) spokfileText(s hshape) string {
 				}
 			}
 			fmt.Fprintf(&b, "    printf '%%s\\n' %s.%d.start >> %s && test ! -e %s/kill.%s.%d || kill -9 $$ && test ! -e %s/fail.%s.%d%s && printf '%%s\\n' %s.%d.ok >> %s\n",
-				t.Name, i, sb.Log, sb.Flags, t.Name, i, sb.Flags, t.Name, i, work, t.Name, i, sb.Log)
+				tagOf(t.Name), i, sb.Log, sb.Flags, tagOf(t.Name), i, sb.Flags, tagOf(t.Name), i, work, tagOf(t.Name), i, sb.Log)
 		}
 		b.WriteString("}\n\n")
 	}
@@ -289,6 +310,35 @@ func (sb *sandbox) materialise(s hshape, st hstate) {
 	}
 }
 
+// applyOnDisk performs one edit operation on the project directory as it stands.
+func (sb *sandbox) applyOnDisk(op hop) {
+	full := filepath.Join(sb.Proj, op.File)
+	switch op.Kind {
+	case "write":
+		_ = os.MkdirAll(filepath.Dir(full), 0o755)
+		_ = os.Remove(full) // (a symlink is replaced, not written through)
+		_ = os.WriteFile(full, []byte(op.Value), 0o644)
+	case "delete":
+		_ = os.Remove(full)
+	case "link":
+		_ = os.MkdirAll(filepath.Dir(full), 0o755)
+		_ = os.Remove(full)
+		_ = os.Symlink(op.Value, full)
+	case "chmod":
+		if fi, err := os.Lstat(full); err == nil && fi.Mode().IsRegular() {
+			if fi.Mode().Perm()&0o100 != 0 {
+				_ = os.Chmod(full, 0o644)
+			} else {
+				_ = os.Chmod(full, 0o755)
+			}
+		}
+	case "rmcache":
+		_ = os.RemoveAll(filepath.Join(sb.Proj, ".spok"))
+	case "rmcachefile":
+		_ = os.Remove(filepath.Join(sb.Proj, ".spok", "cache.json"))
+	}
+}
+
 // readBack reads files and cache from the project directory into st.
 func (sb *sandbox) readBack(s hshape, st *hstate) {
 	st.Files = map[string]string{}
@@ -387,8 +437,14 @@ func snapshot(t *htask, files map[string]string) string {
 			}
 		}
 	}
+	if len(set) == 0 {
+		return noFiles
+	}
 	return mapKey(set)
 }
+
+// noFiles is the snapshot of a task none of whose dependencies denotes a file ("" = no snapshot at all).
+const noFiles = "<no files>"
 
 // missingLiteral reports whether a literal dependency of the task does not exist
 // (spok then stops with an error when it reaches the task).
@@ -452,7 +508,7 @@ type hobs struct {
 
 func (o hobs) executed(task string) bool {
 	for _, l := range o.Log {
-		if strings.HasPrefix(l, task+".") {
+		if strings.HasPrefix(l, tagOf(task)+".") {
 			return true
 		}
 	}
@@ -465,7 +521,7 @@ func (o hobs) succeeded(t *htask) bool {
 		have[l] = true
 	}
 	for i := 0; i < t.NCmd; i++ {
-		if !have[fmt.Sprintf("%s.%d.ok", t.Name, i)] {
+		if !have[fmt.Sprintf("%s.%d.ok", tagOf(t.Name), i)] {
 			return false
 		}
 	}
@@ -477,7 +533,7 @@ func (sb *sandbox) setFail(fails string, on bool) {
 		if fail == "" {
 			continue
 		}
-		p := filepath.Join(sb.Flags, "fail."+fail)
+		p := filepath.Join(sb.Flags, "fail."+flagOf(fail))
 		if on {
 			_ = os.WriteFile(p, nil, 0o644)
 		} else {
@@ -624,7 +680,7 @@ func judgeRun(s hshape, pre hstate, o hobs, st *hstate, strictC02 bool) hverdict
 		}
 		snap := snapshot(t, cur)
 		missing := missingLiteral(t, cur)
-		if logged[name+".0.ok"] {
+		if logged[tagOf(name)+".0.ok"] {
 			for _, cp := range t.Copies {
 				if c, ok := cur[cp[0]]; ok {
 					cur[cp[1]] = c
@@ -673,7 +729,7 @@ func judgeRun(s hshape, pre hstate, o hobs, st *hstate, strictC02 bool) hverdict
 		}
 		// C02: unchanged since the last success => skipped; tasks without files always run
 		if strictC02 && !o.Op.Force && reached {
-			hasFiles := snap != ""
+			hasFiles := snap != noFiles
 			// undecided corner (C02 vs C09): since its last success the task has failed on exactly
 			// those inputs (only a forced run can do that); spok then no longer treats it as up to date
 			corner := pre.LastFail[name] != ""
@@ -688,7 +744,9 @@ func judgeRun(s hshape, pre hstate, o hobs, st *hstate, strictC02 bool) hverdict
 				} else if haveRep && !rep {
 					bad("C02", "unchanged-task-reported-skipped", "task %s ran nothing but is not reported skipped", name)
 				}
-			case !hasFiles && !missing && len(t.Lits) == 0:
+			case !hasFiles && len(t.Lits) == 0 && len(t.Globs) == 0:
+				// (a task that declares globs which currently match no file is covered by neither sentence
+				// of the statement: only tasks without any file dependency are demanded to run always)
 				if !exec && t.NCmd > 0 {
 					bad("C02", "no-file-task-always-runs", "task %s has no file dependency that matches a file but was not run", name)
 				}
